@@ -1675,6 +1675,8 @@ class Engine:
         self.with_state(hst)
         for a in auto_inv:
             self.assume(a())
+        self.run_ghost(spec.get("ghost_head", []), hst)
+        self.with_state(hst)
         res = []
         # variant at loop head
         var0 = None
